@@ -474,6 +474,10 @@ func (e *engine) check(prop string) *checkResult {
 			res.obls = append(res.obls, o)
 		}
 	}
+	// module-wide frame obligations for package-level state
+	if e.w.db.GlobalFrame[prop] {
+		res.obls = append(res.obls, e.globalFrameObls(prop, res)...)
+	}
 	// lemmas
 	for _, lm := range e.w.db.Lemmas {
 		if !strings.HasPrefix(lm.Label, prop+".") {
